@@ -1,11 +1,14 @@
 package chainsim
 
 import (
+	"bytes"
 	"context"
 	"crypto/sha256"
 	"encoding/binary"
 	"errors"
 	"fmt"
+	"github.com/protolambda/zrnt/eth2/beacon/bellatrix"
+	"github.com/protolambda/ztyp/codec"
 	"time"
 
 	"github.com/protolambda/zrnt/eth2/beacon"
@@ -289,9 +292,23 @@ func (s *sim) gossipSlot(slot uint64, blk *blockRec, parent *blockRec, hb *state
 	// window the p2p specification allows for it (message slot .. message slot + span, each side
 	// widened by MAXIMUM_GOSSIP_CLOCK_DISPARITY = 500 ms): still inside, so the verdict stays ACCEPT.
 	// Returns a note for the report and the function that puts the clock back.
-	edgeClock := func(msgSlot uint64, span uint64) (string, func()) {
+	// lastVoteSlot: the last slot in which a vote (or aggregate) of msgSlot may still be propagated. Up to
+	// capella: msgSlot + ATTESTATION_PROPAGATION_SLOT_RANGE (32). From deneb on (EIP-7045): the vote's
+	// epoch must be the current or the previous one, so the last slot of the epoch after the vote's.
+	// ok is false when the fork in force at the end of the window is on the other side of deneb than
+	// the one at the vote's slot (which rule governs such a vote is the topic's business, not tried here)
+	lastVoteSlot := func(msgSlot uint64) (last uint64, ok bool) {
+		deneb := w.forkIndexAt(w.epochOf(msgSlot)) >= 4
+		last = msgSlot + 32
+		if deneb {
+			last = (w.epochOf(msgSlot)+2)*s.cfg.SPE - 1
+		}
+		return last, (w.forkIndexAt(w.epochOf(last+2)) >= 4) == deneb
+	}
+	edgeClock := func(msgSlot uint64, last uint64) (string, func()) {
 		save := g.nowMs
 		restore := func() { g.nowMs = save }
+		span := last - msgSlot
 		switch r.Intn(9) {
 		case 0:
 			g.nowMs = int64(msgSlot)*msPerSlot - 400
@@ -423,6 +440,56 @@ func (s *sim) gossipSlot(slot uint64, blk *blockRec, parent *blockRec, hb *state
 			bad.Signature = w.keys.sign(other, signingRoot(bad.BlockRoot, dom))
 			res, p := validate(func() gossipval.GossipValidatorResult { return gossipval.ValidateBeaconBlock(ctx, &bad, g) })
 			s.judge(g, "beacon_block", what+" validly signed by a non-proposer", expInvalid, res, p)
+		case mode == 5 || mode == 6: // a body the topic's own conditions refuse, signed by the slot's proposer
+			// bellatrix+: payload timestamp that is not the slot's; deneb: more blob commitments than a block may carry
+			alloc, aerr := w.dec.BlockAllocator(blk.digest)
+			if aerr != nil {
+				break
+			}
+			variant := alloc().(common.SpecObj)
+			if variant.Deserialize(spec, codec.NewDecodingReader(bytes.NewReader(blk.bytes), uint64(len(blk.bytes)))) != nil {
+				break
+			}
+			rf := refsOf(variant)
+			if rf == nil || rf.timestamp == nil {
+				break
+			}
+			how := ""
+			if mode == 6 && rf.commit != nil {
+				for len(*rf.commit) <= int(spec.MAX_BLOBS_PER_BLOCK) {
+					var c common.KZGCommitment
+					c[0], c[47] = 0xc0, byte(len(*rf.commit))
+					*rf.commit = append(*rf.commit, c)
+				}
+				how = fmt.Sprintf(" carrying %d blob commitments (at most %d allowed)", len(*rf.commit), uint64(spec.MAX_BLOBS_PER_BLOCK))
+			} else {
+				// (a bellatrix block before the merge carries the default payload: execution is not enabled,
+				// the condition does not apply)
+				if pm, ok := variant.(*bellatrix.SignedBeaconBlock); ok {
+					var def bellatrix.ExecutionPayload
+					if pm.Message.Body.ExecutionPayload.HashTreeRoot(spec, tree.GetHashFn()) == def.HashTreeRoot(spec, tree.GetHashFn()) {
+						break
+					}
+				}
+				*rf.timestamp += common.Timestamp(1 + r.Intn(int(spec.SECONDS_PER_SLOT)))
+				how = " whose payload timestamp is not the time of its slot"
+			}
+			ki := w.keyOf(hb.st, *rf.proposer)
+			if ki < 0 {
+				break
+			}
+			*rf.sig = w.keys.sign(ki, signingRoot(s.blockRootOf(rf), domainFor(fork, w.gvr, common.DOMAIN_BEACON_PROPOSER, common.Epoch(epoch))))
+			type enveloper interface {
+				Envelope(spec *common.Spec, digest common.ForkDigest) *common.BeaconBlockEnvelope
+			}
+			ev, ok := variant.(enveloper)
+			if !ok {
+				break
+			}
+			bad := ev.Envelope(spec, blk.digest)
+			res, p := validate(func() gossipval.GossipValidatorResult { return gossipval.ValidateBeaconBlock(ctx, bad, g) })
+			s.res.Stat("probe_gossip_block_with_refused_body", 1)
+			s.judge(g, "beacon_block", what+how+", signed by the slot's proposer", expInvalid, res, p)
 		case mode == 4: // signed under another fork version
 			bad := *env
 			dom := computeDomain(common.DOMAIN_BEACON_PROPOSER, w.versionOfFork((w.forkIndexAt(epoch)+1)%5), w.gvr)
@@ -492,7 +559,7 @@ func (s *sim) gossipSlot(slot uint64, blk *blockRec, parent *blockRec, hb *state
 			att := &phase0.Attestation{AggregationBits: bits, Data: data, Signature: w.keys.sign(ki, sr)}
 			what := fmt.Sprintf("attestation of validator %d (slot %d committee %d)", vi, slot, ci)
 			seenKey := fmt.Sprintf("att/%d/%d", epoch, vi)
-			mode := r.Intn(12)
+			mode := r.Intn(14)
 			switch {
 			case mode == 0:
 				bad := *att
@@ -548,14 +615,16 @@ func (s *sim) gossipSlot(slot uint64, blk *blockRec, parent *blockRec, hb *state
 				}
 				g.nowMs = save
 			case mode == 6: // clock far ahead: beyond the propagation range
-				save := g.nowMs
-				g.nowMs = int64(slot+34) * msPerSlot
-				res, p := validate(func() gossipval.GossipValidatorResult {
-					_, x := gossipval.ValidateAttestation(ctx, subnet, att, g)
-					return x
-				})
-				s.judge(g, "attestation", what+" older than the propagation range", expTiming, res, p)
-				g.nowMs = save
+				if lastSlot, sameRule := lastVoteSlot(slot); sameRule {
+					save := g.nowMs
+					g.nowMs = int64(lastSlot+2) * msPerSlot
+					res, p := validate(func() gossipval.GossipValidatorResult {
+						_, x := gossipval.ValidateAttestation(ctx, subnet, att, g)
+						return x
+					})
+					s.judge(g, "attestation", what+fmt.Sprintf(" received in slot %d, after the last slot (%d) in which it may be propagated", lastSlot+2, lastSlot), expTiming, res, p)
+					g.nowMs = save
+				}
 			case mode == 7 && head != w.genesis: // voted block not yet seen
 				delete(g.known, head.root)
 				res, p := validate(func() gossipval.GossipValidatorResult {
@@ -574,6 +643,18 @@ func (s *sim) gossipSlot(slot uint64, blk *blockRec, parent *blockRec, hb *state
 						return x
 					})
 					s.judge(g, "attestation", what+" whose target is not the checkpoint of its epoch on the voted chain", expInvalidOrTiming, res, p)
+				}
+			case mode == 12 || mode == 13: // target root that is an ANCESTOR of the epoch's checkpoint block on the voted chain
+				if cp := w.blocks[target]; cp != nil && cp != w.genesis && cp.parent != (common.Root{}) && g.known[cp.parent] && w.blocks[cp.parent] != nil {
+					bad := *att
+					bad.Data.Target.Root = cp.parent
+					bad.Signature = w.keys.sign(ki, signingRoot(bad.Data.HashTreeRoot(tree.GetHashFn()), attDom))
+					res, p := validate(func() gossipval.GossipValidatorResult {
+						_, x := gossipval.ValidateAttestation(ctx, subnet, &bad, g)
+						return x
+					})
+					s.res.Stat("probe_vote_with_an_ancestor_of_the_checkpoint_block_as_target", 1)
+					s.judge(g, "attestation", what+fmt.Sprintf(" whose target root is the parent (slot %d) of the checkpoint block (slot %d) of its epoch on the voted chain", w.blocks[cp.parent].slot, cp.slot), expInvalid, res, p)
 				}
 			case mode == 10: // vote for a block from a later slot than the vote
 				if blk != nil && blk.slot == slot && slot > w.cfg.baseSlot() {
@@ -615,7 +696,11 @@ func (s *sim) gossipSlot(slot uint64, blk *blockRec, parent *blockRec, hb *state
 			if g.seen[seenKey] {
 				exp = expTiming
 			}
-			edge, restore := edgeClock(slot, 32)
+			lastSlot, sameRule := lastVoteSlot(slot)
+			if !sameRule {
+				lastSlot = slot // (the clock stays within the vote's own slot)
+			}
+			edge, restore := edgeClock(slot, lastSlot)
 			res, p := validate(func() gossipval.GossipValidatorResult {
 				_, x := gossipval.ValidateAttestation(ctx, subnet, att, g)
 				return x
@@ -666,7 +751,19 @@ func (s *sim) gossipSlot(slot uint64, blk *blockRec, parent *blockRec, hb *state
 					return x
 				})
 			}
-			switch r.Intn(8) {
+			switch r.Intn(10) {
+			case 8, 9:
+				// every signer votes for a target root that is an ANCESTOR of the epoch's checkpoint block on the voted chain
+				if cp := w.blocks[target]; cp != nil && cp != w.genesis && cp.parent != (common.Root{}) && g.known[cp.parent] && w.blocks[cp.parent] != nil {
+					d2 := data
+					d2.Target.Root = cp.parent
+					agg2 := phase0.Attestation{AggregationBits: aggBits, Data: d2, Signature: w.keys.signAgg(aggSigners, signingRoot(d2.HashTreeRoot(tree.GetHashFn()), attDom))}
+					m2 := phase0.AggregateAndProof{AggregatorIndex: vi, Aggregate: agg2, SelectionProof: sel}
+					bad := &phase0.SignedAggregateAndProof{Message: m2, Signature: w.keys.sign(ki, signingRoot(m2.HashTreeRoot(spec, tree.GetHashFn()), aapDom))}
+					res, p := run(bad)
+					s.res.Stat("probe_aggregate_with_an_ancestor_of_the_checkpoint_block_as_target", 1)
+					s.judge(g, "aggregate_and_proof", what+fmt.Sprintf(" whose target root is the parent (slot %d) of the checkpoint block (slot %d) of its epoch on the voted chain", w.blocks[cp.parent].slot, cp.slot), expInvalid, res, p)
+				}
 			case 0:
 				bad := *signed
 				flipSig(&bad.Signature)
@@ -693,6 +790,34 @@ func (s *sim) gossipSlot(slot uint64, blk *blockRec, parent *blockRec, hb *state
 				bad.Signature = w.keys.sign(ki, signingRoot(bad.Message.HashTreeRoot(spec, tree.GetHashFn()), aapDom))
 				res, p := run(&bad)
 				s.judge(g, "aggregate_and_proof", what+" with a corrupted aggregate signature", expInvalid, res, p)
+			case 5:
+				// an aggregate nobody took part in, carrying the signature that verifies for nobody
+				bad := *signed
+				empty := make(phase0.AttestationBits, len(comm)/8+1)
+				empty[len(comm)/8] |= 1 << (uint(len(comm)) % 8)
+				bad.Message.Aggregate.AggregationBits = empty
+				bad.Message.Aggregate.Signature = infinitySig()
+				bad.Signature = w.keys.sign(ki, signingRoot(bad.Message.HashTreeRoot(spec, tree.GetHashFn()), aapDom))
+				res, p := run(&bad)
+				s.judge(g, "aggregate_and_proof", what+" without a single participant and with the point at infinity as signature", expInvalid, res, p)
+			case 6, 7:
+				// a member of the committee whose selection proof does NOT select it (committees of 32 and more)
+				for _, vi2 := range comm {
+					ki2 := w.keyOf(hb.st, vi2)
+					if ki2 < 0 {
+						continue
+					}
+					sel2 := w.keys.sign(ki2, signingRoot(common.Slot(slot).HashTreeRoot(tree.GetHashFn()), selDom))
+					if hashMod(sel2, modulo) {
+						continue
+					}
+					m2 := phase0.AggregateAndProof{AggregatorIndex: vi2, Aggregate: agg, SelectionProof: sel2}
+					bad := &phase0.SignedAggregateAndProof{Message: m2, Signature: w.keys.sign(ki2, signingRoot(m2.HashTreeRoot(spec, tree.GetHashFn()), aapDom))}
+					res, p := run(bad)
+					s.res.Stat("probe_aggregate_by_unselected_member", 1)
+					s.judge(g, "aggregate_and_proof", fmt.Sprintf("aggregate by validator %d (slot %d committee %d of %d members), whose selection proof does not select it", vi2, slot, ci, len(comm)), expInvalid, res, p)
+					break
+				}
 			case 3:
 				// aggregator outside the committee
 				out := -1
@@ -724,7 +849,11 @@ func (s *sim) gossipSlot(slot uint64, blk *blockRec, parent *blockRec, hb *state
 			if g.seen[fmt.Sprintf("aggr/%d/%d", epoch, vi)] {
 				exp = expTiming
 			}
-			edge, restore := edgeClock(slot, 32)
+			lastSlot, sameRule := lastVoteSlot(slot)
+			if !sameRule {
+				lastSlot = slot
+			}
+			edge, restore := edgeClock(slot, lastSlot)
 			res, p := run(signed)
 			restore()
 			what += edge
@@ -842,7 +971,13 @@ func (s *sim) gossipSlot(slot uint64, blk *blockRec, parent *blockRec, hb *state
 
 	// ---------- sync committee messages and contributions ----------
 	if sc, ok := hb.st.BeaconState.(common.SyncCommitteeBeaconState); ok && hb.epc.CurrentSyncCommittee != nil {
+		// get_sync_subcommittee_pubkeys / compute_subnets_for_sync_committee: committees assigned to a slot
+		// sign for the slot before, so in the last slot of a period the NEXT committee is the one in charge
 		cur, err := sc.CurrentSyncCommittee()
+		if w.syncPeriodOf(slot+1) != w.syncPeriodOf(slot) {
+			cur, err = sc.NextSyncCommittee()
+			s.res.Stat("probe_gossip_sync_messages_in_the_last_slot_of_a_period", 1)
+		}
 		if err != nil {
 			return
 		}
@@ -860,6 +995,11 @@ func (s *sim) gossipSlot(slot uint64, blk *blockRec, parent *blockRec, hb *state
 			var sigs []common.BLSSignature
 			var aggregator = -1
 			var aggVI common.ValidatorIndex
+			type member struct {
+				ki int
+				vi common.ValidatorIndex
+			}
+			var members []member
 			done := map[common.ValidatorIndex]bool{}
 			for pos := subnet * sub; pos < (subnet+1)*sub && !s.stop; pos++ {
 				ki := w.indexOfPub(pubs[pos])
@@ -874,6 +1014,7 @@ func (s *sim) gossipSlot(slot uint64, blk *blockRec, parent *blockRec, hb *state
 				bitsSet = append(bitsSet, int(pos-subnet*sub))
 				sigs = append(sigs, sg)
 				aggregator, aggVI = ki, vi
+				members = append(members, member{ki, vi})
 				if done[vi] || r.Chance(1, 2) {
 					continue
 				}
@@ -925,7 +1066,7 @@ func (s *sim) gossipSlot(slot uint64, blk *blockRec, parent *blockRec, hb *state
 				if g.seen[fmt.Sprintf("sync/%d/%d/%d", vi, slot, subnet)] {
 					exp = expTiming
 				}
-				edge, restore := edgeClock(slot, 0)
+				edge, restore := edgeClock(slot, slot)
 				res, p := run(subnet, m)
 				restore()
 				what += edge
@@ -943,8 +1084,21 @@ func (s *sim) gossipSlot(slot uint64, blk *blockRec, parent *blockRec, hb *state
 			// contribution and proof
 			selData := altair.SyncAggregatorSelectionData{Slot: common.Slot(slot), SubcommitteeIndex: view.Uint64View(subnet)}
 			selDom := domainFor(fork, w.gvr, common.DOMAIN_SYNC_COMMITTEE_SELECTION_PROOF, common.Epoch(epoch))
-			sel := w.keys.sign(aggregator, signingRoot(selData.HashTreeRoot(tree.GetHashFn()), selDom))
-			if !hashMod(sel, size/4/16) {
+			// the first member of the subcommittee whose proof selects it (and the first whose proof does not)
+			var sel common.BLSSignature
+			aggregator = -1
+			unselected := -1
+			for i, m := range members {
+				sg := w.keys.sign(m.ki, signingRoot(selData.HashTreeRoot(tree.GetHashFn()), selDom))
+				if hashMod(sg, size/4/16) {
+					if aggregator < 0 {
+						aggregator, aggVI, sel = m.ki, m.vi, sg
+					}
+				} else if unselected < 0 {
+					unselected = i
+				}
+			}
+			if aggregator < 0 {
 				continue
 			}
 			cb := make(altair.SyncCommitteeSubnetBits, (sub+7)/8)
@@ -1008,6 +1162,25 @@ func (s *sim) gossipSlot(slot uint64, blk *blockRec, parent *blockRec, hb *state
 				bad.Signature = w.keys.sign(aggregator, signingRoot(bad.Message.HashTreeRoot(spec, tree.GetHashFn()), capDom))
 				res, p := run(&bad)
 				s.judge(g, "sync_contribution", what+" without participants", expInvalid, res, p)
+			case 5:
+				// a member of the subcommittee whose selection proof does not select it (subcommittees of 32 and more)
+				if unselected >= 0 {
+					m := members[unselected]
+					sel2 := w.keys.sign(m.ki, signingRoot(selData.HashTreeRoot(tree.GetHashFn()), selDom))
+					cap2 := altair.ContributionAndProof{AggregatorIndex: m.vi, Contribution: contrib, SelectionProof: sel2}
+					bad := &altair.SignedContributionAndProof{Message: cap2, Signature: w.keys.sign(m.ki, signingRoot(cap2.HashTreeRoot(spec, tree.GetHashFn()), capDom))}
+					res, p := run(bad)
+					s.res.Stat("probe_contribution_by_unselected_member", 1)
+					s.judge(g, "sync_contribution", fmt.Sprintf("sync contribution for subcommittee %d (slot %d) by validator %d, whose selection proof does not select it", subnet, slot, m.vi), expInvalid, res, p)
+				}
+			case 4:
+				// no participant, and the signature that verifies for nobody
+				bad := *signed
+				bad.Message.Contribution.AggregationBits = make(altair.SyncCommitteeSubnetBits, len(cb))
+				bad.Message.Contribution.Signature = infinitySig()
+				bad.Signature = w.keys.sign(aggregator, signingRoot(bad.Message.HashTreeRoot(spec, tree.GetHashFn()), capDom))
+				res, p := run(&bad)
+				s.judge(g, "sync_contribution", what+" without participants and with the point at infinity as signature", expInvalid, res, p)
 			case 3:
 				bad := *signed
 				flipSig(&bad.Message.Contribution.Signature)
@@ -1022,7 +1195,7 @@ func (s *sim) gossipSlot(slot uint64, blk *blockRec, parent *blockRec, hb *state
 			if g.seen[fmt.Sprintf("contrib/%d/%d/%d", aggVI, slot, subnet)] {
 				exp = expTiming
 			}
-			edge, restore := edgeClock(slot, 0)
+			edge, restore := edgeClock(slot, slot)
 			res, p := run(signed)
 			restore()
 			what += edge
